@@ -12,7 +12,7 @@ SEMS = [("add", "mul"), ("logaddexp", "add"), ("max", "add"), ("min", "add"), ("
 
 def gen_case(seed):
     src = SeedSource(seed)
-    family = src.pick(["general", "general", "reals", "semiring", "semiring", "gauss_chain", "gauss_int", "binders", "shaped", "shaped", "constant", "delta", "delta_ast", "delta_ast", "subs", "subs"])
+    family = src.pick(["general", "general", "reals", "semiring", "semiring", "gauss_chain", "gauss_int", "binders", "shaped", "shaped", "constant", "delta", "delta_ast", "delta_ast", "subs", "subs", "subs", "subs"])
     if family == "delta":
         return gen_delta_case(src)
     if family == "subs":
@@ -25,7 +25,8 @@ def gen_case(seed):
         if c.get("subs2"):
             ast = ("sub", ast, tuple(c["subs2"]))
         typeof(ast)
-        return {"family": family, "ast": ast, "mode": src.pick(["eager", "eager", "lazy", "normalize", "reflect_then_eager"] if False else ["eager", "eager", "lazy", "normalize"])}
+        # (the Subs-of-Subs fusion rules only fire while the inner substitution is still a term: lazy twice as often there)
+        return {"family": family, "ast": ast, "mode": src.pick(["eager", "lazy", "lazy", "normalize"] if c.get("subs2") else ["eager", "eager", "lazy", "normalize"])}
     if family == "shaped":
         # array-valued outputs: reshape / getslice / getitem / einsum / matmul / stack and cat of outputs / Lambda
         ast = gen_expr(src, Opts(max_depth=3, shaped=True, reals=src.pick([False, True, True])), src.pick([("real", ()), ("real", (2,)), ("real", (3,)), ("real", (2, 2)), ("real", (1, 3))]))
